@@ -59,6 +59,11 @@ type cursorTokenData struct {
 	CreatedAt int64
 	CallID    string // the call token this cursor belongs to
 	State     interface{}
+	// Method is the stream method that minted the cursor. A continuation
+	// route only resumes cursors of its own method: the state inside was
+	// built by that method's init handler, and another method's code must
+	// never run on it.
+	Method string
 }
 
 // resolvedCall is what an authenticated CallID resolves to — either from the
@@ -463,10 +468,18 @@ func (h *HttpServer) packCallToken(callID string, outputSchema *arrow.Schema, au
 // packCursorToken seals the advancing half. Re-minted every turn; this is
 // the only token a response returns.
 func (h *HttpServer) packCursorToken(callID string, state interface{}, auth *AuthContext) ([]byte, error) {
+	return h.packCursorTokenFor("", callID, state, auth)
+}
+
+// packCursorTokenFor is packCursorToken with the minting method recorded in
+// the sealed payload; the continuation route refuses a cursor whose method
+// is not its own.
+func (h *HttpServer) packCursorTokenFor(method, callID string, state interface{}, auth *AuthContext) ([]byte, error) {
 	data := cursorTokenData{
 		CreatedAt: time.Now().Unix(),
 		CallID:    callID,
 		State:     state,
+		Method:    method,
 	}
 	return h.sealToken(cursorTokenVersion, &data, stateTokenAad(auth))
 }
